@@ -28,8 +28,8 @@ CLAUSES = {1: 'NoSpuriousError', 2: 'OutputEqual', 3: 'ErrorReported', 4: 'Error
 DECODER = {'gzip': 'GzipDecompressor', 'deflate': 'DeflateDecompressor', 'none': 'none'}
 
 # Decoder.tla describes the code as it is; flip when the corresponding repair has been committed to /repo
-FIX_FALLBACK = os.environ.get('VERIF_C19_FIX_FALLBACK', 'FALSE')
-FIX_EOF = os.environ.get('VERIF_C19_FIX_EOF', 'FALSE')
+FIX_FALLBACK = os.environ.get('VERIF_C19_FIX_FALLBACK', 'TRUE')
+FIX_EOF = os.environ.get('VERIF_C19_FIX_EOF', 'TRUE')
 
 
 def design_cfg(fix_fallback, fix_eof, maxp, invs):
